@@ -350,6 +350,10 @@ private:
     Position m_trackBeginPosition;
     //! Loop start point
     Position m_loopBeginPosition;
+    //! Tempo at the track begin position (restored together with it)
+    fraction<uint64_t> m_trackBeginTempo;
+    //! Tempo at the loop start point (restored together with it)
+    fraction<uint64_t> m_loopBeginTempo;
 
     //! Is looping enabled or not
     bool    m_loopEnabled;
